@@ -984,8 +984,15 @@ mod gen {
                 if rng.chance(3, 4) {
                     writeln!(w, "poll").unwrap();
                 }
+            } else if r < 94 {
+                writeln!(w, "poll").unwrap();
             } else if r < 96 {
-                writeln!(w, "close").unwrap();
+                if rng.chance(1, 3) {
+                    writeln!(w, "close").unwrap();
+                } else {
+                    writeln!(w, "conn {}", rng.below(n)).unwrap();
+                    conns += 1;
+                }
             } else if r < 98 {
                 // malformed / not applicable
                 let bad = *rng.pick(&["conn", "conn x", "poll 1", "finish", "finish -1", "stop", "stop x", "advance 0", "advance", "pol", "inc 1", "send", ""]);
@@ -996,6 +1003,113 @@ mod gen {
             }
         }
         closing(w, 6);
+    }
+
+    /// C06, worker level: `k` connections in progress, each finishing in a given slot, `q` queued and
+    /// never received, one stop (graceful / forced), optionally a second one, polled promptly
+    #[allow(clippy::too_many_arguments)]
+    fn c06_case(w: &mut dyn Write, name: &str, slots: &[usize], timeout: usize, graceful: bool, q: usize, second: Option<(usize, bool)>, step: usize) {
+        // slot values: 0 = before the stop, 1 = 300 ms, 2 = 1300 ms, 3 = 2300 ms, 4 = never
+        writeln!(w, "case {name} n=1 timeout={timeout} prompt=1 s0=.").unwrap();
+        for _ in slots {
+            writeln!(w, "conn 0").unwrap();
+        }
+        writeln!(w, "poll").unwrap();
+        for (i, s) in slots.iter().enumerate() {
+            if *s == 0 {
+                writeln!(w, "finish {i}").unwrap();
+            }
+        }
+        for _ in 0..q {
+            writeln!(w, "conn 0").unwrap();
+        }
+        writeln!(w, "stop {}", if graceful { "g" } else { "f" }).unwrap();
+        if let Some((0, g2)) = second {
+            writeln!(w, "stop {}", if g2 { "g" } else { "f" }).unwrap();
+        }
+        writeln!(w, "poll").unwrap();
+        let horizon = ((timeout + 999) / 1000 + 2) * 1000 + if second.is_some() { 2000 } else { 0 };
+        let mut t = 0;
+        while t < horizon {
+            writeln!(w, "advance {step}").unwrap();
+            let t2 = t + step;
+            for (i, s) in slots.iter().enumerate() {
+                let at = match s {
+                    1 => 300,
+                    2 => 1300,
+                    3 => 2300,
+                    _ => usize::MAX,
+                };
+                if at > t && at <= t2 {
+                    writeln!(w, "finish {i}").unwrap();
+                }
+            }
+            if let Some((at, g2)) = second {
+                if at > t && at <= t2 {
+                    writeln!(w, "stop {}", if g2 { "g" } else { "f" }).unwrap();
+                }
+            }
+            writeln!(w, "poll").unwrap();
+            t = t2;
+        }
+        writeln!(w, "stop g").unwrap(); // a stop after the worker is gone must resolve too
+        writeln!(w, "conn 0").unwrap(); // and nothing is accepted any more
+    }
+
+    fn c06_enumerate(w: &mut dyn Write, thorough: bool) {
+        let mut slotsets: Vec<Vec<usize>> = vec![vec![]];
+        for a in 0..5 {
+            slotsets.push(vec![a]);
+            for b in a..5 {
+                slotsets.push(vec![a, b]);
+                for c in b..5 {
+                    slotsets.push(vec![a, b, c]);
+                }
+            }
+        }
+        let timeouts: &[usize] = &[0, 1000, 2000, 3000, 500, 1500];
+        let seconds: &[Option<(usize, bool)>] = if thorough {
+            &[None, Some((0, true)), Some((0, false)), Some((500, true)), Some((500, false)), Some((1500, true)), Some((1500, false))]
+        } else {
+            &[None, Some((500, false)), Some((1500, true))]
+        };
+        let steps: &[usize] = if thorough { &[1000, 500, 250] } else { &[1000, 500] };
+        let qs: &[usize] = if thorough { &[0, 1, 2] } else { &[0, 2] };
+        let mut count = 0;
+        for slots in &slotsets {
+            for &t in timeouts {
+                for graceful in [true, false] {
+                    for &q in qs {
+                        for &second in seconds {
+                            for &step in steps {
+                                if !thorough && (count % 3 != 0) && slots.len() == 3 {
+                                    count += 1;
+                                    continue;
+                                }
+                                c06_case(w, &format!("e{count}"), slots, t, graceful, q, second, step);
+                                count += 1;
+                            }
+                        }
+                    }
+                }
+            }
+        }
+        // window W1: the accept thread has sent but not yet counted a connection when Stop arrives
+        for graceful in [true, false] {
+            writeln!(w, "case w1_{} n=1 timeout=1000 s0=.", graceful as u8).unwrap();
+            writeln!(w, "send 0").unwrap();
+            writeln!(w, "poll").unwrap();
+            writeln!(w, "finish 0").unwrap();
+            writeln!(w, "stop {}", if graceful { "g" } else { "f" }).unwrap();
+            writeln!(w, "poll").unwrap();
+            writeln!(w, "case w1b_{} n=1 timeout=1000 s0=.", graceful as u8).unwrap();
+            writeln!(w, "send 0").unwrap();
+            writeln!(w, "stop {}", if graceful { "g" } else { "f" }).unwrap();
+            writeln!(w, "poll").unwrap();
+            writeln!(w, "inc").unwrap();
+            writeln!(w, "advance 1000").unwrap();
+            writeln!(w, "poll").unwrap();
+        }
     }
 
     pub fn gen(a: &Args) {
@@ -1025,6 +1139,7 @@ mod gen {
                 random_case(&mut *w, &mut rng, &format!("r{c}"), prop, if c % 2 == 0 { 3 } else { 1 }, 3);
             }
         } else {
+            c06_enumerate(&mut *w, thorough);
             let nr = if thorough { 20000 } else { 1500 };
             for c in 0..nr {
                 random_case(&mut *w, &mut rng, &format!("r{c}"), prop, 1, 3);
